@@ -14,7 +14,7 @@
 typedef struct { unsigned char b[8]; size_t n; } blob_t;
 static blob_t KEY[MAXU]; static int U, NV, CFG;
 static int ORDER[MAXU];            /* universe indices in ascending order under the table's ordering */
-static const blob_t VAL[3] = {{{'v'}, 1}, {{'w', 0, 'z', 0}, 4}, {{0}, 0}};   /* v2 = empty value (NULL, 0) */
+static const blob_t VAL[4] = {{{'v'}, 1}, {{'w', 0, 'z', 0}, 4}, {{0}, 0}, {{'w', 0, 'y', 0}, 4}};   /* v2 = empty value (NULL, 0); v3 = same length as v1, equal up to a NUL byte */
 
 static const char *STRKEYS[] = {"d", "b", "f", "a", "c", "e", "g", "ab", "ba", "h", "ca", "i", "j", "k", "l", "m"};
 static const blob_t BINKEYS[] = {{{0x80}, 1}, {{0x01}, 1}, {{0xff}, 1}, {{0x00}, 1}, {{0x00, 0x00}, 2}, {{0x00, 0x01}, 2}, {{0xff, 0x00}, 2}, {{0x7f}, 1},
@@ -109,7 +109,7 @@ static char *canon_rec(qtreetbl_obj_t *o, char *p, int withwalk, qtreetbl_obj_t 
     p = canon_rec(o->left, p, withwalk, live, nlive, depth + 1);
     int k = keyid(o->name, o->namesize);
     *p++ = (o->red ? 'A' : 'a') + (k < 0 ? 25 : k);
-    int v = -1; for (int i = 0; i < 3; i++) if (o->datasize == VAL[i].n && (o->datasize == 0 || !memcmp(o->data, VAL[i].b, o->datasize))) v = i;
+    int v = -1; for (int i = 0; i < 4; i++) if (o->datasize == VAL[i].n && (o->datasize == 0 || !memcmp(o->data, VAL[i].b, o->datasize))) v = i;
     *p++ = '0' + (v < 0 ? 9 : v);
     if (withwalk) {
         p += sprintf(p, "t%d", o->tid);
@@ -407,7 +407,7 @@ static int search(int maxdepth) {
         if (d >= 3000) { complete = 0; continue; }
         int plen = mkprefix(key, hist, d);
         if ((idx & 0xff) == 0 && vc_deadline_hit()) { complete = 0; break; }
-        if (vc_nviol > 400) { complete = 0; break; }   /* enough counterexamples: do not explore the damaged state space to its end */
+        if (VC_ENOUGH_VIOLATIONS()) { complete = 0; break; }   /* enough counterexamples: do not explore the damaged state space to its end */
         for (int op = 0; op < NOPS; op++) {
             sprintf(key + plen, "%d", op);
             if (!vc_case(OPS[op].label, key)) continue;
@@ -424,7 +424,7 @@ static int search(int maxdepth) {
                         static const char *KN[] = {"put", "remove", "clear", "walk", "abandon-after", "nearest", "nearest+walk", "one-step-walks x", "walk-removing-element"};
                         char txt[700], *q = txt; int shown = d > 12 ? 12 : d;
                         if (d > shown) q += sprintf(q, "... (%d earlier ops) ", d - shown);
-                        for (int i = d - shown; i <= d && q - txt < 600; i++) { const op_t *o = &OPS[i < d ? hist[i] : op]; q += snprintf(q, 48, "%s(%d%s) ", KN[o->kind], o->kind == OP_ABANDON || o->kind == OP_CYCLE || o->kind == OP_WALKREMOVE ? o->j : o->k, o->kind == OP_PUT ? (o->v == 0 ? ",v0" : o->v == 1 ? ",v1" : ",empty") : ""); }
+                        for (int i = d - shown; i <= d && q - txt < 600; i++) { const op_t *o = &OPS[i < d ? hist[i] : op]; q += snprintf(q, 48, "%s(%d%s) ", KN[o->kind], o->kind == OP_ABANDON || o->kind == OP_CYCLE || o->kind == OP_WALKREMOVE ? o->j : o->k, o->kind == OP_PUT ? (o->v == 0 ? ",v0" : o->v == 1 ? ",v1" : o->v == 3 ? ",v1twin" : ",empty") : ""); }
                         vc_sample("history [%s] -> state %s", txt, ckey);
                     }
                 }
